@@ -86,17 +86,28 @@ def wExitObj (w : World) (j : Nat) : Except Err World :=
 
 def wExit (w : World) (v : Nat) : Except Err World := wExitObj w (w.var v)
 
+/-- base.py:__exit__ when the body RAISED (`exc_type` is an Exception): the record pushed by `__enter__` is popped and nothing is written
+back (only a `to_module` record is undone, which this model does not cover); the exception propagates -/
+def wExitRaised (w : World) (v : Nat) : Except Err World :=
+  let j := w.var v
+  match (w.objs j).queue with
+  | [] => .error .index
+  | _ :: q => .ok (w.set j { w.objs j with queue := q })
+
 inductive Step where
   | call (v : Nat) (name : String) (c : Call)
   | enter (v : Nat)
   | edits (v : Nat) (es : List Edit)
   | exit (v : Nat)
+  /-- the block on `v` is left by an exception raised in its body -/
+  | exitRaised (v : Nat)
 
 def runStep (w : World) : Step → Except Err World
   | .call v name c => wCall w v name c
   | .enter v => .ok (wEnter w v)
   | .edits v es => wEdits w v es
   | .exit v => wExit w v
+  | .exitRaised v => wExitRaised w v
 
 def runSteps (w : World) : List Step → Except Err World
   | [] => .ok w
@@ -116,6 +127,22 @@ first-out) -/
 def interleavedProg (n1 : String) (c1 : Call) (e1 : List Edit) (n2 : String) (c2 : Call) (e2 : List Edit) (aFirst : Bool) : List Step :=
   [.call 0 n1 c1, .call 1 n2 c2, .enter 2, .enter 3, .edits 2 e1, .edits 3 e2] ++
   (if aFirst then [.exit 2, .exit 3] else [.exit 3, .exit 2])
+
+/-- `with x0.<n1>(c1) as x1: (with x1.<n2>(c2) as x2: edits2 on x2); edits1 on x1` -/
+def nestedProg (n1 : String) (c1 : Call) (n2 : String) (c2 : Call) (e2 e1 : List Edit) : List Step :=
+  [.call 0 n1 c1, .enter 1, .call 1 n2 c2, .enter 2, .edits 2 e2, .exit 2, .edits 1 e1, .exit 1]
+
+/-- `with x0.<n1>(c1) as x1: (with x0.<n2>(c2) as x2: edits2 on x2); edits1 on x1` (the inner block is entered on the ORIGINAL again) -/
+def siblingProg (n1 : String) (c1 : Call) (n2 : String) (c2 : Call) (e2 e1 : List Edit) : List Step :=
+  [.call 0 n1 c1, .enter 1, .call 0 n2 c2, .enter 2, .edits 2 e2, .exit 2, .edits 1 e1, .exit 1]
+
+/-- two blocks in a row on the same original: `with x0.<n1>(c1) as x1: edits1`, then `with x0.<n2>(c2) as x2: edits2` -/
+def sequentialProg (n1 : String) (c1 : Call) (e1 : List Edit) (n2 : String) (c2 : Call) (e2 : List Edit) : List Step :=
+  [.call 0 n1 c1, .enter 1, .edits 1 e1, .exit 1, .call 0 n2 c2, .enter 2, .edits 2 e2, .exit 2]
+
+/-- a block whose body raises after its edits, then (the exception caught) a second, normal block on the same original -/
+def abortedThenProg (n1 : String) (c1 : Call) (e1 : List Edit) (n2 : String) (c2 : Call) (e2 : List Edit) : List Step :=
+  [.call 0 n1 c1, .enter 1, .edits 1 e1, .exitRaised 1, .call 0 n2 c2, .enter 2, .edits 2 e2, .exit 2]
 
 /-- the objects a normal exit of `j` reads or writes: `j` itself and the object its top record points at -/
 def footprint (w : World) (j : Nat) : List Nat :=
